@@ -368,14 +368,20 @@ var ProfileC18Params = func() *Profile {
 		if g.Int("pg?", 0, 3) != 0 {
 			return nil
 		}
-		if e := GenParamChange(h, g); e != nil {
+		var e *EnvAction
+		if g.Bool("pg/knob?") {
+			e = GenGovKnob(h, g)
+		} else {
+			e = GenParamChange(h, g)
+		}
+		if e != nil {
 			return []EnvAction{*e}
 		}
 		return nil
 	}
 	p.Rule = "history with >=1 applied governance parameter change (a boundary value accepted by Params.Validate, ValidateBasic and the handler), >=1 block after a gap >= 1 day and >=1 open leveraged position at some point"
 	p.NonTrivial = func(h *History) bool {
-		return h.Labels["param-change-applied"] > 0 && h.Labels["gap>=1d"] > 0 && (okCount(h, "leveragelp.open", "perpetual.open") > 0)
+		return h.Labels["param-change-applied"]+h.Labels["gov-knob-applied"] > 0 && h.Labels["gap>=1d"] > 0 && (okCount(h, "leveragelp.open", "perpetual.open") > 0)
 	}
 	return &p
 }()
